@@ -17,9 +17,10 @@ type Prop struct {
 	NS    string `json:"ns"`
 	Name  string `json:"name"`
 	Value string `json:"value"`
-	Elem  bool   `json:"elem"`  // child element instead of attribute of rdf:Description
-	Quote byte   `json:"quote"` // '"' or '\'' (attribute form)
-	Block int    `json:"block"` // which rdf:Description block
+	Elem  bool   `json:"elem"`            // child element instead of attribute of rdf:Description
+	Empty bool   `json:"empty,omitempty"` // (unknown properties in element form only) written as an empty-element tag <ns:name/>
+	Quote byte   `json:"quote"`           // '"' or '\'' (attribute form)
+	Block int    `json:"block"`           // which rdf:Description block
 }
 
 // Array is one array property.
@@ -101,16 +102,30 @@ func Serialise(r Record) []byte {
 				attrs = append(attrs, p)
 			}
 		}
+		var unknownElems []Prop
 		for _, p := range r.Unknown {
 			if p.Block%blocks != b {
 				continue
 			}
 			used[p.NS] = true
 			if p.Elem {
-				elems = append(elems, p)
+				unknownElems = append(unknownElems, p)
 			} else {
 				attrs = append(attrs, p)
 			}
+		}
+		// unknown elements stand between the known ones: known, unknown, known, unknown ...
+		if len(unknownElems) > 0 {
+			var mixed []Prop
+			for i := 0; i < len(elems) || i < len(unknownElems); i++ {
+				if i < len(elems) {
+					mixed = append(mixed, elems[i])
+				}
+				if i < len(unknownElems) {
+					mixed = append(mixed, unknownElems[i])
+				}
+			}
+			elems = mixed
 		}
 		var arrays []Array
 		for _, a := range r.Arrays {
@@ -150,7 +165,15 @@ func Serialise(r Record) []byte {
 			if ei < len(elems) {
 				p := elems[ei]
 				ei++
-				fmt.Fprintf(&sb, "%s<%s:%s%s>%s</%s:%s%s>", ws, p.NS, p.Name, r.WSName, p.Value, p.NS, p.Name, r.WSName)
+				if p.Empty {
+					wsn := r.WSName
+					if len(p.Value)%2 == 0 {
+						wsn = "" // (half of them without white space in front of "/>", whatever the style of the other tags)
+					}
+					fmt.Fprintf(&sb, "%s<%s:%s%s/>", ws, p.NS, p.Name, wsn)
+				} else {
+					fmt.Fprintf(&sb, "%s<%s:%s%s>%s</%s:%s%s>", ws, p.NS, p.Name, r.WSName, p.Value, p.NS, p.Name, r.WSName)
+				}
 			}
 			if ai < len(arrays) {
 				a := arrays[ai]
